@@ -1002,11 +1002,11 @@ func (up4 *UP4) configureApplicationMeter(q qer, bidirectional bool) (meter, err
 
 	releaseIDs := func() {
 		if appMeter.uplinkCellID != 0 {
-			up4.releaseSessionMeterCellID(appMeter.uplinkCellID)
+			up4.releaseAppMeterCellID(appMeter.uplinkCellID)
 		}
 
 		if appMeter.downlinkCellID != appMeter.uplinkCellID {
-			up4.releaseSessionMeterCellID(appMeter.downlinkCellID)
+			up4.releaseAppMeterCellID(appMeter.downlinkCellID)
 		}
 	}
 
